@@ -18,10 +18,12 @@ them.
 from __future__ import annotations
 
 import ast
+import re
 from typing import Dict, List, Optional, Set, Tuple
 
 from sa import paths
 from sa.db import DB, AnalysisError, norm, walk_no_nested
+from sa.fixtures import fixture
 from sa.report import Report
 
 # grammar id -> (module, class, attribute holding the grammar text)
@@ -206,6 +208,26 @@ def _const_int(e: ast.AST) -> Optional[int]:
     return None
 
 
+def _multi_part_terminals(text: str) -> List[str]:
+    """Terminals (UPPER-case names) a grammar text defines as a sequence of two or more items."""
+    out = []
+    for m in re.finditer(r"^\s*([A-Z_][A-Z_0-9]*)(?:\.\d+)?\s*:\s*(.+)$", text, re.M):
+        name, body = m.group(1), m.group(2)
+        for alt in re.split(r"\|", body):
+            items = re.findall(r'"(?:[^"\\]|\\.)*"i?|/(?:[^/\\]|\\.)+/[a-z]*|\[[^\]]*\]|\([^)]*\)[?*+]?|[A-Za-z_][A-Za-z_0-9]*[?*+]?',
+                               alt)
+            if len(items) >= 2:
+                out.append("%s: %s" % (name, body.strip()))
+                break
+    return out
+
+
+@fixture("C17/L13 multi-part terminal matcher")
+def _fx_l13() -> bool:
+    return bool(_multi_part_terminals('  COEFF: ["-"] NUMBER\n')) and \
+        not _multi_part_terminals('  NUMBER: /[0-9]+/\n  ?num: NUMBER -> pos\n     | "-" NUMBER -> neg\n')
+
+
 def run(db: DB, rep: Report) -> None:
     rep.explanation = (
         "The five lark grammar strings are read from the parser classes' bodies by ast and compiled "
@@ -278,7 +300,9 @@ def run(db: DB, rep: Report) -> None:
             continue
         for origin in origins:
             if origin not in rules[gid]:
-                raise AnalysisError("rule '%s' vanished from grammar %s" % (origin, gid))
+                rep.undecided("L3", db.loc(texts[gid][1]), gid + "." + origin,
+                              "rule '%s' vanished from grammar %s" % (origin, gid))
+                continue
             aliases = sorted({a for a, _ in rules[gid][origin] if a})
             # also the labels of unaliased sub-rules reachable as alternatives (factor: tensor)
             for a, exp in rules[gid][origin]:
@@ -348,6 +372,46 @@ def run(db: DB, rep: Report) -> None:
                   "Mapping parses every entry with %s, unconditionally on the entry's text" % api,
                   "Mapping.__init__ does not hand every entry to %s (or does so only for some spellings of "
                   "the entry)" % api)
+
+    # ---- L12: the YAML loader carries state between documents (a %YAML directive switches the
+    # resolver for every later load): one loader per parse call
+    rep.rule("L12", "every YAML document is loaded by a loader created for that call", 2)
+    ym = db.modules.get("teaal.parse.yaml")
+    if ym is None:
+        raise AnalysisError("teaal/parse/yaml.py not found")
+    n_l12 = 0
+    for fi in db.all_functions(["teaal.parse.yaml."]):
+        for n in walk_no_nested(fi.node):
+            if isinstance(n, ast.Call) and isinstance(n.func, ast.Attribute) and n.func.attr in ("load", "load_all"):
+                n_l12 += 1
+                recv = n.func.value
+                fresh = False
+                if isinstance(recv, ast.Call) and norm(recv.func) == "YAML":
+                    fresh = True
+                elif isinstance(recv, ast.Name):
+                    v = paths.reaching_def(recv.id, n, fi.node)
+                    fresh = isinstance(v, ast.Call) and norm(v.func) == "YAML"
+                rep.check("L12", fresh, db.loc(n), fi.short, "loader:" + norm(recv)[:40],
+                          "%s loads with a loader created in this call" % fi.short,
+                          "%s loads the document with %s, a loader that outlives the call: ruamel keeps the "
+                          "%%YAML version directive of an earlier document on the loader, so the same "
+                          "specification text is resolved differently (N, Y, On become booleans) depending on "
+                          "what was parsed before" % (fi.short, norm(recv)[:40]))
+    if n_l12 < 2:
+        raise AnalysisError("fewer than 2 YAML load sites found in teaal/parse/yaml.py")
+
+    # ---- L13: whitespace between tokens is insignificant everywhere ----------------------
+    rep.rule("L13", "every grammar ignores inline whitespace and defines no multi-part terminal", 5)
+    for gid, (text, node) in sorted(texts.items()):
+        ign = bool(re.search(r"^\s*%ignore\s+WS_INLINE\s*$", text, re.M)) and \
+            bool(re.search(r"^\s*%import\s+common\.WS_INLINE\s*$", text, re.M))
+        multi = _multi_part_terminals(text)
+        rep.check("L13", ign and not multi, db.loc(node), gid, "whitespace:" + gid,
+                  "grammar %s: %%ignore WS_INLINE, no multi-part terminal" % gid,
+                  "grammar '%s' %s: whitespace is not ignored *inside* a terminal, so two spellings of one "
+                  "directive that differ only in blanks (e.g. '-1' and '- 1') are no longer parsed alike" %
+                  (gid, ("defines the terminal %s as a sequence of several parts" % multi[0]) if multi
+                   else "no longer ignores inline whitespace"))
 
     # ---- L11: terminals accept what the property's strings need ---------------------
     rep.rule("L11", "NUMBER accepts every unsigned integer literal, NAME exactly identifiers", 7)
@@ -745,6 +809,12 @@ def mutants(db: DB):
     eq, pt, st, lv = ("teaal/parse/equation.py", "teaal/parse/partitioning.py",
                       "teaal/parse/spacetime.py", "teaal/parse/level.py")
     return [
+        M("one shared YAML loader", "teaal/parse/yaml.py",
+          "        yaml = YAML(typ='safe', pure=True)\n        return yaml.load(string)",
+          "        return _LOADER.load(string)", "L12"),
+        M("sign lexed into the number terminal", "teaal/parse/equation.py",
+          "        ?num: NUMBER -> pos\n            | \"-\" NUMBER -> neg\n",
+          "        ?num: SNUM -> pos\n        SNUM: [\"-\"] NUMBER\n", "L13"),
         M("ambiguous iterm alternative", eq, '              | num "*" NAME -> itimes\n',
           '              | num "*" NAME -> itimes\n              | NAME -> ijust2\n', ("L1", "L3")),
         M("ambiguous expr (right+left recursion)", eq, '?expr: (term "+")* term -> plus',
